@@ -35,6 +35,18 @@ def fetchJudge (orig : Bytes) (f : Fetch) (got : Option Bytes) : Option String :
   | .range _ _, some w => if got = some w then none else some "ReadUrlAsStream/ranged-fetch-differs-from-original"
   | .range _ _, none => none
 
+/-- FNV-1a (64 bit): concurrent fetches travel as (length, digest) -/
+def fnv64 (bs : Bytes) : UInt64 :=
+  bs.foldl (fun h b => (h ^^^ UInt64.ofNat b) * 1099511628211) 14695981039346656037
+
+/-- judge of one of several CONCURRENT ranged fetches (each judged against the original of the blob it addressed);
+    the answer travels as (length, fnv64 digest) -/
+def fetchDigestJudge (orig : Bytes) (off size : Nat) (got : Option (Nat × UInt64)) : Option String :=
+  match wanted orig (.range off size) with
+  | some w => if got = some (w.length, fnv64 w) then none
+              else some "ReadUrlAsStream/concurrent-ranged-fetch-differs-from-original"
+  | none => none
+
 def sizeJudge (orig : Bytes) (reported : Nat) : Option String :=
   if reported = orig.length then none else some "doUploadData/reported-size-is-not-the-original-length"
 
